@@ -110,12 +110,20 @@ WellFormedCell(c, kidCells, kidInfos) ==
                /\ SubSeq(data, 34, 65) = kidInfos[2].h[1]
                /\ <<data[66], data[67]>> = U16(kidInfos[1].d[1])
                /\ <<data[68], data[69]>> = U16(kidInfos[2].d[1])
-WellFormed(T) ==
-  /\ Topological(T)
-  /\ LET I == InfoTable(T) IN
-       \A i \in 1..Len(T) :
-          /\ WellFormedCell(T[i], [j \in 1..Len(T[i].r) |-> T[T[i].r[j]]], [j \in 1..Len(T[i].r) |-> I[T[i].r[j]]])
-          /\ I[i].d[4] <= MaxDepth
+\* A cell exists only when its depth AT EVERY LEVEL stays within MaxDepth (the cell constructor of the reference
+\* implementation bounds the depth inside its loop over the levels): a cell above a pruned branch whose stored depth is
+\* 1024 is too deep at the lower levels although its representation depth is 1.
+DepthsOK(inf) == \A k \in 1..4 : inf.d[k] <= MaxDepth
+ShapeOK2(T, I) == \A i \in 1..Len(T) :
+          WellFormedCell(T[i], [j \in 1..Len(T[i].r) |-> T[T[i].r[j]]], [j \in 1..Len(T[i].r) |-> I[T[i].r[j]]])
+\* well-formed but for the depth bound
+ShapeOK(T) == Topological(T) /\ ShapeOK2(T, InfoTable(T))
+WellFormed2(T, I) == ShapeOK2(T, I) /\ \A i \in 1..Len(T) : DepthsOK(I[i])
+WellFormed(T) == Topological(T) /\ WellFormed2(T, InfoTable(T))
+\* the cells that do not exist because they, or a cell below them, are too deep (T topological: references point to later rows)
+Doomed2(T, I) == FoldLeft(LAMBDA acc, k : LET i == Len(T) - k + 1 IN
+                           IF ~DepthsOK(I[i]) \/ \E j \in 1..Len(T[i].r) : T[i].r[j] \in acc THEN acc \cup {i} ELSE acc,
+                         {}, [k \in 1..Len(T) |-> k])
 \* pruned cells must at least be long enough for the lookups CellInfo makes (used before hashing untrusted cells)
 HashableCell(c) == c.x = Pruned => (c.m \in 1..7 /\ Len(c.b) >= 16 + Pop(c.m) * 272)
 
